@@ -220,6 +220,8 @@ static int32_t mus2mid_writevarlen(int32_t value, uint8_t *out)
 
 #define MUS_READ_INT16(b) ((b)[0] | ((b)[1] << 8))
 #define MUS_READ_INT32(b) ((b)[0] | ((b)[1] << 8) | ((b)[2] << 16) | ((b)[3] << 24))
+/* stop the conversion when an event wants more data than the file has */
+#define MUS_NEED_BYTES(n) do { if ((size_t)(src_end - cur) < (size_t)(n)) goto _end; } while (0)
 
 static int Convert_mus2midi(uint8_t *in, uint32_t insize,
                             uint8_t **out, uint32_t *outsize,
@@ -227,7 +229,7 @@ static int Convert_mus2midi(uint8_t *in, uint32_t insize,
 {
     struct mus_ctx ctx;
     MUSHeader header;
-    uint8_t *cur, *end;
+    uint8_t *cur, *end, *src_end;
     uint32_t track_size_pos, begin_track_pos, current_pos;
     int32_t delta_time;/* Delta time for midi event */
     int temp, ret = -1;
@@ -316,6 +318,7 @@ static int Convert_mus2midi(uint8_t *in, uint32_t insize,
     /* get current position in source, and end of position */
     cur = in + header.scoreStart;
     end = cur + header.scoreLen;
+    src_end = in + insize;
 
     currentChannel = 0;
     delta_time = 0;
@@ -352,23 +355,29 @@ static int Convert_mus2midi(uint8_t *in, uint32_t insize,
         switch ((event & 122) >> 4){
             case MUSEVENT_KEYOFF:
                 status |=  0x80;
+                MUS_NEED_BYTES(1);
                 bit1 = *cur++;
                 bit2 = 0x40;
                 break;
             case MUSEVENT_KEYON:
                 status |= 0x90;
+                MUS_NEED_BYTES(1);
                 bit1 = *cur & 127;
-                if (*cur++ & 128)   /* volume bit? */
+                if (*cur++ & 128) { /* volume bit? */
+                    MUS_NEED_BYTES(1);
                     channel_volume[channelMap[channel]] = *cur++;
+                }
                 bit2 = channel_volume[channelMap[channel]];
                 break;
             case MUSEVENT_PITCHWHEEL:
                 status |= 0xE0;
+                MUS_NEED_BYTES(1);
                 bit1 = (*cur & 1) >> 6;
                 bit2 = (*cur++ >> 1) & 127;
                 break;
             case MUSEVENT_CHANNELMODE:
                 status |= 0xB0;
+                MUS_NEED_BYTES(1);
                 if (*cur >= sizeof(mus_midimap) / sizeof(mus_midimap[0])) {
                     /*_WM_ERROR_NEW("%s:%i: can't map %u to midi",
                                   __FUNCTION__, __LINE__, *cur);*/
@@ -379,6 +388,7 @@ static int Convert_mus2midi(uint8_t *in, uint32_t insize,
                 bit2 = (*cur++ == 12) ? header.channels + 1 : 0x00;
                 break;
             case MUSEVENT_CONTROLLERCHANGE:
+                MUS_NEED_BYTES(2);
                 if (*cur == 0) {
                     cur++;
                     status |= 0xC0;
@@ -433,6 +443,7 @@ static int Convert_mus2midi(uint8_t *in, uint32_t insize,
         if (event & 128) {
             delta_time = 0;
             do {
+                MUS_NEED_BYTES(1);
                 delta_time = (int32_t)((delta_time * 128 + (*cur & 127)) * (140.0 / (double)frequency));
             } while ((*cur++ & 128));
         } else {
